@@ -94,7 +94,27 @@ def ini_plain_ok(s: str) -> bool:
     return all(ch.isprintable() for ch in s)
 
 
+def ini_triple(s: str) -> Optional[str]:
+    """help.rst: 'If for some reason you need newlines in a string value, just tripple quote your string like you would
+    do in python' - a triple-quoted value spanning real (indented) continuation lines."""
+    lines = s.split('\n')
+    if len(lines) < 2:
+        return None
+    for l in lines:
+        if l == '' or l != l.strip() or l[0] in '#;' or '\r' in l or not all(ch.isprintable() for ch in l):
+            return None
+    if "'''" in s or '"""' in s:
+        return None
+    q = "'''" if not s.endswith("'") and not s.startswith("'") else '"""'
+    if q == '"""' and (s.endswith('"') or s.startswith('"')):
+        return None
+    body = s.replace('\\', '\\\\')
+    return (q + body.replace('\n', '\n    ') + q).replace('%', '%%')
+
+
 def ini_value(s: str, style: str) -> Optional[str]:
+    if style == 'triple':
+        return ini_triple(s)
     if style == 'plain':
         if not ini_plain_ok(s):
             return None
@@ -175,7 +195,7 @@ def option_table() -> List[Dict[str, Any]]:
     return table
 
 
-FREE_STRINGS = ['simple', 'two words', 'x=y', 'a:b', 'semi;colon', 'hash # tag', '100%', '%(x)s', "it's", 'say "hi"', 'back\\slash', '[bracket]', '[a, b]', 'comma,sep',
+FREE_STRINGS = ['two\nlines', 'three\nlines of\ntext = x', 'simple', 'two words', 'x=y', 'a:b', 'semi;colon', 'hash # tag', '100%', '%(x)s', "it's", 'say "hi"', 'back\\slash', '[bracket]', '[a, b]', 'comma,sep',
                 '-dash', '--double', ' lead', 'trail ', 'tab\tin', 'café', '中', "'quoted'", '"dq"', 'true', '1', '#start', ';start', '{mod_source_href}#n{lineno}', 'a\\tb', '\\', "'", '"']
 STR_VALUES = {
     'htmlwriter': ['pydoctor.templatewriter.TemplateWriter', 'pydoctor.templatewriter.NoSuchWriter', 'nodots'],
@@ -263,7 +283,7 @@ def file_variants(opt: Dict[str, Any], value: Any) -> List[Tuple[str, str, str, 
                         if t:
                             out.append((fmt, key, 'int', t))
                 else:
-                    for style in ('plain', 'single', 'double'):
+                    for style in ('plain', 'single', 'double', 'triple'):
                         t = write_file(fmt, key, value, style)
                         if t:
                             out.append((fmt, key, style, t))
@@ -360,7 +380,7 @@ CLI_ALTERS = [0]
 def quoting_styles(fmt: str, via: str) -> List[str]:
     if fmt == 'toml':
         return ['toml']
-    return ['single', 'double']
+    return ['single', 'double', 'triple'] if via == 'str' else ['single', 'double']
 
 
 # ------------------------------------------------------------------ plan / work / replay
@@ -438,14 +458,14 @@ def work(item: Dict[str, Any]) -> Acc:
         acc.exhaustive_parts.append('strings of length <=%d over the quoting alphabet' % item['L'])
     elif kind == 'quoting-hyp':
         from hypothesis import strategies as st
-        strat = st.tuples(st.text(alphabet=st.one_of(st.sampled_from(QUOTE_ALPHABET), st.characters(blacklist_categories=('Cs',))), min_size=3, max_size=12),
-                          st.sampled_from(FORMATS), st.sampled_from(['str', 'item']), st.sampled_from(['single', 'double']))
+        strat = st.tuples(st.text(alphabet=st.one_of(st.sampled_from(QUOTE_ALPHABET), st.sampled_from(QUOTE_ALPHABET), st.characters(blacklist_categories=('Cs',))), min_size=3, max_size=12),
+                          st.sampled_from(FORMATS), st.sampled_from(['str', 'item']), st.sampled_from(['single', 'double', 'triple']))
 
         def body(c):
             s, fmt, via, style = c
             if '\r' in s or '\x00' in s:
                 return
-            style = 'toml' if fmt == 'toml' else style
+            style = 'toml' if fmt == 'toml' else (style if via == 'str' or style != 'triple' else 'double')
             acc.case(key=c, nontrivial=True, sample={'string': s, 'file': FILE_OF[fmt]}, classes=['quoting-random'])
             judge(ID, acc, {'kind': 'quoting', 's': s, 'fmt': fmt, 'style': style, 'via': via}, check_quoting(s, fmt, style, via))
         hyp_run(acc, strat, body, item['n'], item['seed'])
